@@ -248,6 +248,12 @@ class Prog:
                 f['B'] = {b['id']: b for b in f['blocks']}
         self._cg = None
         self._stores = None
+        # parameters declared pointer-to-const: a call cannot change what such an argument points to (used by the generic call transfer)
+        from core import psts
+        for f in self.funcs.values():
+            cp = set(i for i, p in enumerate(f.get('params') or ()) if p.get('p') and p.get('pc'))
+            if cp:
+                psts.CONST_PARAMS[f['name']] = cp
 
     # -------------------------------------------------------------- basic queries
     def func(self, name):
